@@ -229,6 +229,8 @@ def _run_prop(prop, tier, seed, replay, verdict, work, judge, design_run):
 
         if prop == "C03":
             encoded_captures(work, verdict, binary, tier, seed)
+        if prop == "C02":
+            histories_part(work, verdict, binary, tier, seed)
 
         selftest = binding_selftest(work, lines, judge)
 
@@ -309,6 +311,55 @@ def encoded_captures(work, verdict, binary, tier, seed):
         "histories": sum(1 for ev in lines if ev["ev"] == "reset"), "probes": len(probes),
         "probes_with_captures": sum(1 for ev in probes if ev.get("hascaps")),
         "rejected": len(rejected), "reproduced": len(confirmed), "judge": "EncodingTrace (captures only)",
+    }
+
+
+def histories_part(work, verdict, binary, tier, seed):
+    """C02 speaks of any set of loaded rules, however it came about: a sample of the histories with updates
+    and deletions (the profile of C06, incl. the family built around what a removed rule may leave behind
+    in the tree) is judged for the same statement."""
+    n = 100 if tier == "quick" else 4000
+    trace = work.path("hist_trace.ndjson")
+    base = ["rules", "-profile", "c06", "-n", n, "-seed", seed + 17]
+    log(run_driver(binary, base + ["-trace", trace]).strip())
+    lines = read_ndjson(trace)
+
+    def rejected_of(rl, tag):
+        out = set()
+        for i, ch in enumerate(split_chunks(rl, 60000)):
+            path = work.path("hist_chunk%s_%d.ndjson" % (tag, i))
+            write_ndjson(path, ch)
+            v = _judge(work, path, "_hist%s_%d" % (tag, i))
+            out |= {x for x in locate(ch, v["bad"]) if x[2].startswith("lookup") or "captures" in x[2]}
+        return out
+
+    rejected = rejected_of(lines, "")
+    confirmed = rejected
+    for i in range(2):
+        ids = sorted({t for t, _, _ in confirmed})
+        if not ids:
+            break
+        tf = work.path("hist_repro%d.ndjson" % i)
+        run_driver(binary, base + ["-trace", tf, "-only", ",".join(map(str, ids)), "-workers", 4])
+        confirmed = confirmed & rejected_of(read_ndjson(tf), "_r%d" % i)
+    known = load_known("C02")
+    by_trace = {}
+    for t, off, why in sorted(confirmed):
+        by_trace.setdefault(t, []).append((off, why))
+    for t, items in by_trace.items():
+        blk = block(lines, t)
+        off, why = items[0]
+        k = match_known(known, facts_of(blk, off, why))
+        if k:
+            verdict.known_finding(k)
+            continue
+        path = save_replay("C02", "hist-trace%d-seed%d" % (t, seed), blk) if len(verdict.violations) < 20 else "(not saved)"
+        verdict.violation(path, "%s at event %d of a history with updates / deletions (%d events rejected): %s" % (
+            why, off, len(items), json.dumps(blk[off].get("req"))[:300]))
+    verdict.coverage["histories_with_updates_and_deletions"] = {
+        "histories": sum(1 for ev in lines if ev["ev"] == "reset"),
+        "probes": sum(1 for ev in lines if ev["ev"] == "probe"),
+        "rejected": len(rejected), "reproduced": len(confirmed),
     }
 
 
